@@ -74,6 +74,14 @@ impl Rng {
             _ => self.u32(),
         }
     }
+    pub fn pick_mut<'a, T>(&mut self, xs: &'a mut [T]) -> Option<&'a mut T> {
+        if xs.is_empty() {
+            None
+        } else {
+            let i = self.below(xs.len());
+            Some(&mut xs[i])
+        }
+    }
     pub fn shuffle<T>(&mut self, xs: &mut [T]) {
         for i in (1..xs.len()).rev() {
             let j = self.below(i + 1);
